@@ -35,7 +35,7 @@ ASSUMPTIONS = ["single set/attribute operations are atomic (GIL)",
 TRUSTED = ["harness/sched.py + harness/props/c18_real.py (deterministic scheduler; shimmed threading/time/set in svr_threads)"]
 
 SRC = "Pyro5/svr_threads.py"
-SHARED = ("idle", "busy", "closed", "num_workers")
+SHARED_DATA = ("idle", "busy", "closed")
 BLOCKING = ("join", "wait", "sleep", "acquire")
 
 
@@ -103,36 +103,43 @@ def _flat(stmts, depth=0):
     return out
 
 
-def _shape(fn):
-    """(accesses of the shared pool attributes inside `with self.count_lock`, outside, blocking calls inside the lock)"""
+def _shape(fn, methods):
+    """(accesses of the shared pool attributes inside `with self.count_lock`, outside, blocking calls inside the lock).
+    Calls of other methods of the same class (`self._helper(...)`, `self.num_workers()`, `Pool._helper(...)`) are followed:
+    the helper's body counts with the lock state of the call site, so extracting code into a helper changes nothing."""
     inside = outside = blocking = 0
 
-    def visit(node, locked):
+    def visit(node, locked, stack):
         nonlocal inside, outside, blocking
         if isinstance(node, ast.With):
             is_lock = any(isinstance(i.context_expr, ast.Attribute) and i.context_expr.attr == "count_lock"
                           and getattr(i.context_expr.value, "id", None) == "self" for i in node.items)
             for i in node.items:
-                visit(i.context_expr, locked)
+                visit(i.context_expr, locked, stack)
             for st in node.body:
-                visit(st, locked or is_lock)
+                visit(st, locked or is_lock, stack)
             return
-        if isinstance(node, ast.Attribute) and node.attr in SHARED and getattr(node.value, "id", None) == "self":
-            if locked:
-                inside += 1
-            else:
-                outside += 1
+        if isinstance(node, ast.Attribute) and getattr(node.value, "id", None) in ("self", "Pool", "cls"):
+            if node.attr in SHARED_DATA:
+                if locked:
+                    inside += 1
+                else:
+                    outside += 1
+            elif node.attr in methods and node.attr not in stack and node.attr not in ("process", "notify_done", "close"):
+                for st in methods[node.attr].body:
+                    visit(st, locked, stack + (node.attr,))
         if locked and isinstance(node, ast.Call) and isinstance(node.func, ast.Attribute) and node.func.attr in BLOCKING:
             blocking += 1
         for ch in ast.iter_child_nodes(node):
-            visit(ch, locked)
+            visit(ch, locked, stack)
     for st in fn.body:
-        visit(st, False)
+        visit(st, False, (fn.name,))
     return inside, outside, blocking
 
 
 def extract():
     common.repo_on_path()
+    from props import c18_probe
     src = open(os.path.join(common.REPO, SRC)).read()
     tree = ast.parse(src)
     classes = {n.name: n for n in tree.body if isinstance(n, ast.ClassDef)}
@@ -147,20 +154,10 @@ def extract():
             raise ValueError("Worker.%s not found" % need)
     rows, blocking = [], 0
     for name in ("process", "notify_done", "close"):
-        i, o, b = _shape(pm[name])
+        i, o, b = _shape(pm[name], pm)
         rows.append('("%s", %d, %d)' % (name, i, o))
         blocking += b
-    lock_kind = "unknown"
-    for node in ast.walk(pm["__init__"]):
-        if isinstance(node, ast.Assign) and any(isinstance(t, ast.Attribute) and t.attr == "count_lock" for t in node.targets):
-            if isinstance(node.value, ast.Call):
-                lock_kind = getattr(node.value.func, "attr", getattr(node.value.func, "id", "unknown"))
-    untimed = 0
-    for node in ast.walk(pm["close"]):
-        if isinstance(node, ast.Call) and isinstance(node.func, ast.Attribute) and node.func.attr == "join":
-            if not node.args and not any(k.arg == "timeout" for k in node.keywords):
-                untimed += 1
-    # who else touches the pool's sets / flag / a worker's slot?  (any assignment to these attributes outside Pool / Worker)
+    # who else touches the pool's sets / flag / a worker's event?  (any use of these attributes outside Pool / Worker)
     foreign = 0
     for cls in classes.values():
         if cls.name in ("Pool", "Worker"):
@@ -169,32 +166,44 @@ def extract():
             if isinstance(node, ast.Attribute) and node.attr in ("idle", "busy", "closed", "job_available", "count_lock"):
                 foreign += 1
     from Pyro5 import config
+    pr = c18_probe.probe()
+    facts = pr["facts"]
 
     def lst(name, items):
         return "def %s : List String := [\n  %s]\n" % (name, ",\n  ".join(_lean_str(x) for x in items))
-    return ("-- GENERATED by harness/props/c18.py from Pyro5/svr_threads.py — do not edit\n"
+
+    def tab(name, doc, rows_):
+        return "/-- %s -/\ndef %s : List (List (List Nat)) := %s\n" % (doc, name, c18_probe.lean_rows(rows_))
+    return ("-- GENERATED by harness/props/c18.py + c18_probe.py from Pyro5/svr_threads.py — do not edit\n"
             "namespace Pyro.Gen.C18\n"
-            "/-- (Pool method, accesses of self.idle / self.busy / self.closed / self.num_workers lexically inside\n"
-            "    `with self.count_lock:`, accesses outside) -/\n"
+            "/-- (Pool method, accesses of self.idle / self.busy / self.closed lexically inside `with self.count_lock:`,\n"
+            "    accesses outside); helper methods of Pool called from these methods are expanded at the call site -/\n"
             "def poolShape : List (String × Nat × Nat) := [%s]\n"
+            "/-- which threading factory built Pool.count_lock (observed by constructing pools) -/\n"
             "def lockKind : String := \"%s\"\n"
-            "/-- calls of .join / .wait / sleep / .acquire lexically inside the lock in those methods -/\n"
+            "/-- calls of .join / .wait / sleep / .acquire lexically inside the lock (helpers expanded), plus such calls\n"
+            "    observed with the lock held while the methods were probed -/\n"
             "def blockingInsideLock : Nat := %d\n"
-            "/-- .join() calls without a timeout in Pool.close -/\n"
+            "/-- Worker.join() calls without a timeout observed while probing Pool.close on every small state -/\n"
             "def untimedJoins : Nat := %d\n"
+            "/-- accesses of idle / busy / closed observed WITHOUT the lock held while probing process / notify_done / close -/\n"
+            "def unlockedAccesses : Nat := %d\n"
             "/-- uses of idle / busy / closed / job_available / count_lock in other classes of the module -/\n"
             "def foreignAccesses : Nat := %d\n"
             "def defaultMin : Nat := %d\n"
             "def defaultMax : Nat := %d\n"
-            % (", ".join(rows), lock_kind, blocking, untimed, foreign, config.THREADPOOL_SIZE_MIN, config.THREADPOOL_SIZE)
-            + "/-- statement skeletons (log calls dropped, one entry per statement, leading blanks = nesting depth) -/\n"
+            % (", ".join(rows), facts["lockKind"], blocking + facts["blockingInsideLock"], facts["untimedJoins"],
+               facts["unlockedAccesses"], foreign, config.THREADPOOL_SIZE_MIN, config.THREADPOOL_SIZE)
+            + "/-- statement skeletons of the Worker (log calls dropped, one entry per statement, leading blanks = nesting depth);\n"
+              "    the ORDER of these statements is the concurrency-relevant fact, it cannot be probed sequentially -/\n"
             + lst("workerProcess", _flat(wm["process"].body))
             + lst("workerRun", _flat(wm["run"].body))
-            + lst("poolInit", _flat(pm["__init__"].body))
-            + lst("poolNumWorkers", _flat(pm["num_workers"].body))
-            + lst("poolProcess", _flat(pm["process"].body))
-            + lst("poolNotifyDone", _flat(pm["notify_done"].body))
-            + lst("poolClose", _flat(pm["close"].body))
+            + "/-! behaviour tables: the real methods called on every small pool state (encoding: harness/props/c18_probe.py) -/\n"
+            + tab("initTable", "Pool() for sizes 0..3 x 0..3: [[min,max],[result,|idle|,|busy|,closed,lock exists before the first worker starts,workers started]]", pr["init"])
+            + tab("processTable", "Pool.process(job)", pr["process"])
+            + tab("startFailTable", "Pool.process(job) when Thread.start() raises RuntimeError", pr["startfail"])
+            + tab("notifyTable", "Pool.notify_done(worker)", pr["notify"])
+            + tab("closeTable", "Pool.close()", pr["close"])
             + "end Pyro.Gen.C18\n")
 
 
